@@ -193,6 +193,13 @@ Proof.
 Qed.
 Print Assumptions GenTie_ctor.
 
+(* src/from.rs: const_from_u64 for every word x (GenTie_ctor has the instance ONE = const_from_u64(1)) *)
+Theorem GenTie_const_from_u64 : forall bits x,
+  0 <= bits -> nlimbs bits <= B -> 0 <= x < B ->
+  g_const_from_u64 bits (nlimbs bits) x = Mul.const_from_u64 bits x.
+Proof. exact g_const_from_u64_eq. Qed.
+Print Assumptions GenTie_const_from_u64.
+
 (* src/bits.rs: bit, set_bit, not, count_ones, count_zeros; src/special.rs: is_power_of_two *)
 Theorem GenTie_bits_rs : forall bits a i v,
   0 <= bits -> bits < B -> 64 * nlimbs bits < B -> wfU bits a -> 0 <= i ->
